@@ -30,7 +30,7 @@ def check_eq(found, exp, what):
 def run(chk):
     E = LossEnv(chk.repo)
     chk.files = E.w.files
-    thorough = chk.tier == "thorough"
+    thorough = chk.full
     chk.rule("C05.R1", "normalisation term == w * Mean[times]((L * Mean[samples](u) - 1)^2)", floor=4)
     chk.rule("C05.R2", "initial-condition term == weighted mean squared mismatch at the initial time", floor=3)
     chk.rule("C05.R3", "observation term == Mean[rows](sum_c w_c (u_c(input_i; params_i) - val_ic)^2), observed parameters "
